@@ -239,6 +239,33 @@ pub fn generate(g: &mut Gen, thorough: bool) {
             pp.steps.len() >= 2,
         );
     }
+    // text that is not PROJ syntax reaches the operator as it was written: laid out over several lines, with
+    // comments and continuation colons, it is the same operation in Plain (which translates) as in Minimal (which
+    // does not)
+    {
+        use super::lang::StepSpec;
+        let cores = ["addone", "helmert x=3", "cart ellps=intl", "axisswap order=2,1", "noop", "helmert y=-2 z=5", "cart inv ellps=GRS80", "utm zone=32"];
+        for k in 0..(if thorough { 3000 } else { 300 }) {
+            let len = 1 + g.rng.below(4);
+            let steps: Vec<StepSpec> = (0..len)
+                .map(|_| StepSpec { core: g.rng.pick(&cores).to_string(), inv: g.rng.chance(1, 4), omit_fwd: g.rng.chance(1, 8), omit_inv: g.rng.chance(1, 8) })
+                .collect();
+            let (noisy, _canon) = super::c16::noisy_layout(&mut g.rng, &steps, k % 3 != 0);
+            g.push(format!("S_C14\tctx\t{}\t\t{}", crate::wire::escape(&noisy), data), "oracle-geodesy-text-through-plain", true);
+            g.push(format!("PROJ\t{}", crate::wire::escape(&noisy)), "geodesy-text-passes-through", true);
+            let dir = if g.rng.chance(1, 2) { "F" } else { "I" };
+            g.push(super::op_line("plain", &[], &[], &noisy, "both", dir, &data), "op-geodesy-text-through-plain", true);
+        }
+        for t in [
+            "cart ellps=intl # to cartesian\n| helmert x=-87 y=-96 z=-120\n| cart inv ellps=GRS80",
+            "# datum shift\ncart ellps=intl |\n  helmert x=-87 # metres\n  | cart inv",
+            "helmert\n:x=1\n:y=2 # a comment\n:z=3",
+            "addone # one\r\n| addone # two\r\n| addone inv",
+        ] {
+            g.push(format!("S_C14\tctx\t{}\t\t{}", crate::wire::escape(t), data), "oracle-geodesy-text-through-plain", true);
+            g.push(super::op_line("plain", &[], &[], t, "both", "F", &data), "op-geodesy-text-through-plain", true);
+        }
+    }
     // refusals, pass-through, idempotence
     for t in [
         "proj=pipeline step proj=utm zone=32 step init=epsg:4326",
